@@ -41,6 +41,7 @@ ASSUMPTIONS = [
     "Excl: PayloadDict subclass; render_to_dict / render_to_payload output shapes",
     "flags universe {x, y, z, foo_a}; probe packages a/p-1, a/p-2, a/q-1, b/r-1; pre_defaults {}, {x}, {foo_a,foox,y,z} (foox: a flag that merely starts with the letters of a cleared prefix)",
     "dom kind: package IUSE contains every universe flag, no use.mask/use.force besides the arch flag, USE_EXPAND=FOO",
+    "the seen-set stores a 128-bit BLAKE2 digest of the exact state snapshot (memory), not the snapshot itself",
 ]
 BOUNDS = {
     "quick": "bfs: core alphabet (24 events) to depth 4 plus full alphabet (70 events) to depth 3, partitioned by 2-event / 1-event root prefixes; dom: 4 make.defaults variants x every sequence of <=3 profile/user package.use lines out of 15",
